@@ -79,6 +79,11 @@ CLAIMED = {
          "Each rate case boots the production assembly with fast limits (300..1200/min, burst 1..10, optional global limit) and drives 1..8 concurrent senders (own connections, keep-alive on/off, proxy/provider/Anthropic/mixed routes, interleaved health requests); requests that reach the recording backend are counted against burst + rate x t + 1 over the window [first send, last receive], every refusal must be 429. Size cases send bodies at limit-1, limit, limit+1 and 5x limit with Content-Length or chunked framing against max_body_size and the Anthropic max_message_size: nothing above the limit reaches the backend, no 2xx, 413 on the Anthropic route.",
          "All senders share 127.0.0.1; the window is over-estimated so load can only loosen the bound (no false alarm), at the price of missing marginal excess.",
          "DESIGN.md §3 C17"),
+ "C18": ("exploration",
+         "rapid-generated batches of concurrent exchanges with causally gated, stalling and aborted streams; hand-shake liveness oracle, one-sided time bounds, leak check at quiescence",
+         "Batches of 4..16 concurrent exchanges per (engine, proxy profile) through the full stack: gated streams (the scripted backend sends chunk k+1 only after the client acknowledged chunk k, so buffering deadlocks and is detected without wall-clock), complete streams with pauses <= 300 ms, stalls after the headers / after k chunks / before the headers, and client aborts; chunk sizes 1 B..256 KiB, SSE/NDJSON/JSON/text/binary, chunked/Content-Length/close-delimited framing. Completed streams must arrive byte-identical, stalls must end within read timeout + 5 s (the backend itself waits 12 s longer), aborts must reach the backend within 5 s, and after every batch the goroutine count and upstream connections return to the pre-batch baseline.",
+         "Time bounds are one-sided with >= 3 s slack; buffered modes (standard profile, binary under auto) are only checked for completeness; goroutine leaks are detected by count (+-2).",
+         "DESIGN.md §3 C18"),
  "C06": ("exploration",
          "rapid-generated endpoint lists against a reference selector model; concurrent fairness counting",
          "Selectors obtained from balancer.Factory over a real stats collector are judged against reference rules on generated lists (n<=5, all statuses, priorities, gauge vectors) sequentially and from up to 32 goroutines: member-or-error, top-tier only and every tier member reached, exact k-per-member round-robin fairness over any window, minimal gauge for least-connections.",
